@@ -91,8 +91,21 @@ class MatVal:
         return m
 
 
-class Return(Exception):
-    pass
+class StructVal:
+    """mutable value of a local plain aggregate (struct with public data members, no methods)"""
+
+    def __init__(self, name, tname):
+        self.name, self.tname = name, tname
+        self.fields = {}
+
+    def freeze(self):
+        return ("struct", self.tname, tuple(sorted((k, (v.freeze() if hasattr(v, "freeze") else v))
+                                                   for k, v in self.fields.items())))
+
+    def copy(self):
+        s = StructVal(self.name, self.tname)
+        s.fields = {k: (v.copy() if hasattr(v, "copy") and not isinstance(v, tuple) else v) for k, v in self.fields.items()}
+        return s
 
 
 class Evaluator:
@@ -103,6 +116,7 @@ class Evaluator:
         self.max_depth = max_depth
         self.opaque = set(opaque)
         self.notes = []
+        self.effects = []      # (condition term or None, call term, node) of statement-level opaque calls
 
     # ---- public -------------------------------------------------------------
     def function_value(self, f, args=None, this=("this",), depth=0):
@@ -121,7 +135,8 @@ class Evaluator:
 
 
 class Frame:
-    def __init__(self, ev, f, env, this, depth):
+    def __init__(self, ev, f, env, this, depth, base_cond=None):
+        self.base_cond = base_cond
         self.ev = ev
         self.F = ev.F
         self.f = f
@@ -151,10 +166,11 @@ class Frame:
         return val
 
     def cond_now(self):
-        if not self.pathcond:
+        conds = ([self.base_cond] if self.base_cond is not None else []) + self.pathcond
+        if not conds:
             return None
-        c = self.pathcond[0]
-        for x in self.pathcond[1:]:
+        c = conds[0]
+        for x in conds[1:]:
             c = ("and", c, x)
         return c
 
@@ -180,7 +196,28 @@ class Frame:
                     v = self.e(d["init"])
                     if isinstance(v, MatVal):
                         v = v.copy()
+                    if isinstance(v, StructVal):
+                        v = v if d.get("ref") else v.copy()
+                    elif self.is_plain_aggregate(d) and not d.get("ref") and isinstance(v, tuple) and v[0] == "call" \
+                            and str(v[1]).startswith("construct:"):
+                        sv = StructVal(d["name"], (d.get("t") or "").replace("const ", "").strip())
+                        rec = self.F.records.get(sv.tname)
+                        for fl in rec["fields"]:
+                            if "init" in fl:
+                                sv.fields[fl["name"]] = self.e(fl["init"])
+                        v = sv
+                    elif self.is_model_object(d) and not d.get("ref"):
+                        v = ("obj", d["name"], self.fz(v), ())
                     self.env[d["id"]] = v
+                elif self.is_plain_aggregate(d):
+                    sv = StructVal(d["name"], (d.get("t") or "").replace("const ", "").strip())
+                    rec = self.F.records.get(sv.tname)
+                    for fl in rec["fields"]:
+                        if "init" in fl:
+                            sv.fields[fl["name"]] = self.e(fl["init"])
+                    self.env[d["id"]] = sv
+                elif self.is_model_object(d):
+                    self.env[d["id"]] = ("obj", d["name"], None, ())
                 else:
                     dims = self.ev.dims_of(d.get("t"))
                     self.env[d["id"]] = MatVal(*dims) if dims else ("unknown", "uninitialised " + d["name"])
@@ -214,12 +251,34 @@ class Frame:
         if k in ("NullStmt", "BreakStmt", "ContinueStmt"):
             return k != "NullStmt"
         if k == "CXXTryStmt":
-            return self.block(n["c"][0])
+            env0, heap0 = self.snapshot()
+            ex = self.block(n["c"][0])
+            env_t, heap_t = self.snapshot()
+            all_exit = ex
+            for h in n["c"][1:]:
+                self.restore(*[{k2: (v.copy() if isinstance(v, (MatVal, StructVal)) else v) for k2, v in d.items()}
+                               for d in (env0, heap0)])
+                n0 = len(self.pathcond)
+                self.pathcond.append(("caught", h.get("ct") or "..."))
+                hx = self.block(h.get("body"))
+                del self.pathcond[n0:]
+                env_h, heap_h = self.snapshot()
+                if not hx:
+                    c = ("caught", h.get("ct") or "...")
+                    if all_exit and ex:
+                        env_t, heap_t = env_h, heap_h
+                    else:
+                        env_t, heap_t = self.merge(c, env_h, env_t), self.merge(c, heap_h, heap_t)
+                    all_exit = False
+            self.restore(env_t, heap_t)
+            return all_exit
         if k == "CXXThrowExpr":
             self.returns.append((self.cond_now(), ("throw", n.get("tt"))))
             return True
         # expression statement
-        self.e(n)
+        v = self.e(n)
+        if isinstance(v, tuple) and v and v[0] == "call":
+            self.ev.effects.append((self.cond_now(), v, n))
         return False
 
     def branch(self, c, then, els):
@@ -324,8 +383,8 @@ class Frame:
         return False
 
     def snapshot(self):
-        return ({k: (v.copy() if isinstance(v, MatVal) else v) for k, v in self.env.items()},
-                {k: (v.copy() if isinstance(v, MatVal) else v) for k, v in self.heap.items()})
+        return ({k: (v.copy() if isinstance(v, (MatVal, StructVal)) else v) for k, v in self.env.items()},
+                {k: (v.copy() if isinstance(v, (MatVal, StructVal)) else v) for k, v in self.heap.items()})
 
     def restore(self, env, heap):
         self.env, self.heap = env, heap
@@ -334,6 +393,14 @@ class Frame:
         out = {}
         for k in set(a) | set(b):
             va, vb = a.get(k), b.get(k)
+            if isinstance(va, StructVal) or isinstance(vb, StructVal):
+                if isinstance(va, StructVal) and isinstance(vb, StructVal):
+                    m = StructVal(va.name, va.tname)
+                    m.fields = self.merge(c, va.fields, vb.fields)
+                    out[k] = m
+                else:
+                    out[k] = va if isinstance(va, StructVal) else vb
+                continue
             if isinstance(va, MatVal) or isinstance(vb, MatVal):
                 if isinstance(va, MatVal) and isinstance(vb, MatVal):
                     m = MatVal(va.rows, va.cols)
@@ -413,7 +480,10 @@ class Frame:
                 self.heap[lhs["sn"]] = val
                 return
             b = self.e(lhs["c"][0])
-            self.heap[("field", b, lhs["sn"])] = val
+            if isinstance(b, StructVal):
+                b.fields[lhs["sn"]] = val
+                return
+            self.heap[("field", self.fz(b), lhs["sn"])] = val
             return
         if k == "CXXOperatorCallExpr" and lhs.get("op") in ("()", "[]"):
             tgt = strip_all(lhs["c"][1])
@@ -429,17 +499,43 @@ class Frame:
                     if dims:
                         holder = MatVal(*dims)
                         self.heap[tgt["sn"]] = holder
+            if holder is None and tgt.get("k") == "MemberExpr" and tgt.get("mk") == "Field" and tgt.get("c"):
+                b = self.e(tgt["c"][0])
+                if isinstance(b, StructVal):
+                    holder = b.fields.get(tgt["sn"])
+                    if holder is None:
+                        dims = self.ev.dims_of(tgt.get("t"))
+                        if dims:
+                            holder = MatVal(*dims)
+                            b.fields[tgt["sn"]] = holder
             if isinstance(holder, MatVal) and all(i[0] == "num" for i in idx):
                 ii = [int(i[1]) for i in idx]
                 if len(ii) == 1:
                     ii = [ii[0], 0] if holder.cols == 1 else [0, ii[0]]
                 holder.el[(ii[0], ii[1])] = val
                 return
-            self.ev.notes.append("%s:%s element assignment not modelled" % (self.f["file"], lhs.get("l")))
+            tt = self.fz(self.e(lhs))
+            self.ev.effects.append((self.cond_now(), ("call", "assign", (tt, self.fz(val))), lhs))
             return
         if k == "UnaryOperator" and lhs.get("op") == "*":
             return
         self.ev.notes.append("%s:%s assignment target %s not modelled" % (self.f["file"], lhs.get("l"), k))
+
+    def is_plain_aggregate(self, d):
+        t = (d.get("t") or "").replace("const ", "").strip()
+        r = self.F.records.get(t)
+        if r is None or not r["file"].startswith(("include/gm2calc", "src/")) or r.get("bases"):
+            return False
+        if not hasattr(self.ev, "_has_methods"):
+            self.ev._has_methods = {(f.get("method") or {}).get("clsT") for f in self.F.functions.values()
+                                    if f.get("method") and not (f.get("method") or {}).get("ctor")}
+        return t not in self.ev._has_methods and bool(r["fields"])
+
+    def is_model_object(self, d):
+        t = (d.get("t") or "").replace("const ", "").strip()
+        r = self.F.records.get(t)
+        return r is not None and r["file"].startswith(("include/gm2calc", "src/")) and "Eigen" not in t and \
+            any(fl for fl in r["fields"]) and not t.startswith("std::")
 
     def thaw(self, m):
         mv = MatVal(m[1], m[2])
@@ -495,6 +591,11 @@ class Frame:
                         return self.heap[n["sn"]]
                     return ("field", self.this, n["sn"])
                 b = self.e(n["c"][0])
+                if isinstance(b, StructVal):
+                    if n["sn"] in b.fields:
+                        return b.fields[n["sn"]]
+                    return ("field", ("sym", b.name), n["sn"])
+                b = self.fz(b)
                 key = ("field", b, n["sn"])
                 if key in self.heap:
                     return self.heap[key]
@@ -598,7 +699,7 @@ class Frame:
         return ("unknown", "expression kind " + str(k))
 
     def fz(self, v):
-        return v.freeze() if isinstance(v, MatVal) else v
+        return v.freeze() if isinstance(v, (MatVal, StructVal)) else v
 
     def binop(self, op, a, b):
         a, b = self.fz(a), self.fz(b)
@@ -721,6 +822,13 @@ class Frame:
                 return num(o.cols)
             if short == "size":
                 return num(o.rows * o.cols)
+        if isinstance(o, tuple) and o and o[0] == "obj" and not n.get("cm") and obj is not None:
+            # mutating method on a local model object: recorded, object identity updated
+            tgt = strip_all(obj)
+            call = ("call", fn, (o,) + tuple(self.fz(a) for a in args))
+            if tgt.get("k") == "DeclRefExpr" and tgt.get("id") in self.env:
+                self.env[tgt["id"]] = ("obj", o[1], o[2], o[3] + ((short,) + tuple(self.fz(a) for a in args),))
+            return call
         if n.get("mg") in self.F.functions:
             return self.inline_or_opaque(n, self.F.functions[n["mg"]], o, args)
         if fn.startswith("Eigen::") and short in ("rows", "cols", "size"):
@@ -760,7 +868,7 @@ class Frame:
             env[cid] = self.thaw(val) if isinstance(val, tuple) and val and val[0] == "mat" else val
         for p, a in zip(g["params"], args):
             env[p["id"]] = a
-        fr = Frame(self.ev, g, env, self.this, self.depth + 1)
+        fr = Frame(self.ev, g, env, self.this, self.depth + 1, self.cond_now())
         fr.run()
         return fr.result()
 
@@ -774,10 +882,10 @@ class Frame:
         env = {}
         byref = []
         for p, a in zip(g["params"], args):
-            if isinstance(a, MatVal) and not (p.get("ref") and not p.get("cref")):
+            if isinstance(a, (MatVal, StructVal)) and not p.get("ref"):
                 a = a.copy()
             env[p["id"]] = a
-        fr = Frame(self.ev, g, env, this if this is not None else ("this",), self.depth + 1)
+        fr = Frame(self.ev, g, env, this if this is not None else ("this",), self.depth + 1, self.cond_now())
         # heap of a method called on `this` of the caller is shared
         if this == self.this and this is not None:
             fr.heap = self.heap
@@ -794,7 +902,7 @@ def always_exits_function(s):
 
 def show(t, depth=0):
     """compact rendering of a term"""
-    if isinstance(t, MatVal):
+    if isinstance(t, (MatVal, StructVal)):
         t = t.freeze()
     if not isinstance(t, tuple) or not t:
         return str(t)
@@ -828,4 +936,82 @@ def show(t, depth=0):
         return "mat%dx%d[%s]" % (t[1], t[2], "; ".join("(%d,%d)=%s" % (i, k, show(v, depth + 1)) for i, k, v in t[3]))
     if h == "unknown":
         return "<?%s>" % t[1]
+    if h == "struct":
+        return "%s{%s}" % (str(t[1]).split("::")[-1], ", ".join("%s=%s" % (k, show(v, depth + 1)) for k, v in t[2]))
+    if h == "obj":
+        return "%s{%s%s}" % (t[1], show(t[2], depth + 1) if t[2] else "",
+                             "".join("; " + "%s(%s)" % (m[0], ", ".join(show(a) for a in m[1:])) for m in t[3]))
     return str(t)
+
+
+def subst_fold(t, mapping):
+    """replace sub-terms by `mapping` (term -> term) and fold constant arithmetic/conditions"""
+    if not isinstance(t, tuple) or not t:
+        return t
+    if t in mapping:
+        return mapping[t]
+    h = t[0]
+    if h in ("num", "sym", "this", "enum", "str", "unknown", "func", "null", "void", "default"):
+        return t
+    if h in ("+", "-", "*", "/"):
+        a, b = subst_fold(t[1], mapping), subst_fold(t[2], mapping)
+        if h == "+" and a == NUM0:
+            return b
+        if h in ("+", "-") and b == NUM0:
+            return a
+        if h == "*" and (a == NUM1):
+            return b
+        if h in ("*", "/") and b == NUM1:
+            return a
+        return mk(h, a, b)
+    if h == "neg":
+        a = subst_fold(t[1], mapping)
+        return ("num", -a[1]) if a[0] == "num" else ("neg", a)
+    if h == "cmp":
+        a, b = subst_fold(t[2], mapping), subst_fold(t[3], mapping)
+        if a[0] == "num" and b[0] == "num":
+            r = {"<": a[1] < b[1], "<=": a[1] <= b[1], "==": a[1] == b[1], "!=": a[1] != b[1]}[t[1]]
+            return num(1 if r else 0)
+        return ("cmp", t[1], a, b)
+    if h == "not":
+        a = subst_fold(t[1], mapping)
+        return num(0 if a[1] != 0 else 1) if a[0] == "num" else ("not", a)
+    if h == "and":
+        a, b = subst_fold(t[1], mapping), subst_fold(t[2], mapping)
+        if a[0] == "num":
+            return b if a[1] != 0 else num(0)
+        if b[0] == "num":
+            return a if b[1] != 0 else num(0)
+        return ("and", a, b)
+    if h == "or":
+        a, b = subst_fold(t[1], mapping), subst_fold(t[2], mapping)
+        if a[0] == "num":
+            return num(1) if a[1] != 0 else b
+        if b[0] == "num":
+            return num(1) if b[1] != 0 else a
+        return ("or", a, b)
+    if h == "ite":
+        c = subst_fold(t[1], mapping)
+        if c[0] == "num":
+            return subst_fold(t[2] if c[1] != 0 else t[3], mapping)
+        return ("ite", c, subst_fold(t[2], mapping), subst_fold(t[3], mapping))
+    if h == "call":
+        return ("call", t[1], tuple(subst_fold(a, mapping) for a in t[2]))
+    if h in ("field", "elem"):
+        return (h,) + tuple(subst_fold(a, mapping) if isinstance(a, tuple) else a for a in t[1:])
+    if h == "mat":
+        return ("mat", t[1], t[2], tuple((i, k, subst_fold(v, mapping)) for i, k, v in t[3]))
+    if h == "struct":
+        return ("struct", t[1], tuple((k, subst_fold(v, mapping)) for k, v in t[2]))
+    return t
+
+
+def subterms(t):
+    stack = [t]
+    while stack:
+        x = stack.pop()
+        if isinstance(x, tuple):
+            yield x
+            for y in x[1:]:
+                if isinstance(y, tuple):
+                    stack.append(y)
